@@ -7,7 +7,11 @@ tie:   fault-injection correspondence.  For each program of the family (3 modes 
        decorator form, bodies of a few facade commands ending normally or by raising, optional contention) the real
        `Cache.transaction` block runs on `FaultyMemory` backends (harness/txfault.py) with NO fault, then with EVERY
        single position of the command trace failing, then with EVERY pair (second position taken from the trace the
-       first fault produces) - exhaustive; thorough adds every triple for the fixed family.  Each run is compared with
+       first fault produces) - exhaustive; thorough adds every triple for the fixed family.  Every failing position comes in
+       BOTH KINDS: an `Exception` (the program's class) and a BaseException that is no Exception (`asyncio.CancelledError` -
+       what a backend command cut short by `asyncio.timeout()` / `wait_for` / a cancelled task ends with - or a BaseException
+       subclass of our own), and every pair in all four combinations of kinds: the handlers of the code tell the kinds apart
+       (`except BaseException` in Transaction.commit, `except Exception` in Transaction._rollback).  Each run is compared with
        the compiled Lean model on the same (program, fault set)  [impl == model]  and with the property statement
        evaluated on what the implementation did  [oracle].
        Programs also contain multi-key commands (set_many / delete_many over 2-3 keys) and CONTENDING HOLDERS: other tasks
@@ -42,8 +46,13 @@ TRUSTED = [
     "the iteration order of the `_locks` set is taken from each implementation run and given to the model (`uprio`); the theorems "
     "hold for every order",
     "harness: FaultyMemory (harness/txfault.py), virtual clock, canonicalisation of the command trace",
-    "injected exceptions are subclasses of Exception (CacheBackendInteractionError / RuntimeError); BaseException-only "
-    "failures such as task cancellation are not in the family",
+    "injected exceptions: of Exception kind CacheBackendInteractionError / RuntimeError, of BaseException kind "
+    "asyncio.CancelledError (subclass carrying the command index; raised by the failing command itself, as when the command is "
+    "cut short by asyncio.timeout()/wait_for) / a BaseException subclass of our own; the model only knows the kind.  The "
+    "cancellation is injected as the exception the command ends with - the bookkeeping of Task.cancel()/uncancel() and of "
+    "asyncio.timeout() around the block is outside the family",
+    "asyncio fact used by the model for BaseException kinds: a CancelledError / BaseException raised by a child of "
+    "asyncio.gather reaches the awaiter like any first exception, the sibling unlocks still run (exercised on the real loop)",
     "contending holders are real transaction blocks in other asyncio tasks on the same Cache, parked on an asyncio.Event; a holder "
     "is released while the victim's backend command i is suspended (before it takes effect) or after the victim's block; the model "
     "sees a holder only as a foreign lock entry and a release event `env i` (a holder's only effect on the stores is its lock)",
@@ -55,9 +64,11 @@ TRUSTED = [
 # ---------------------------------------------------------------------------------------------------------
 # the family
 
-def P(mode, nb, body, timeout=16, form="ctx", exc="interaction", data=(), flocks=(), holders=()):
-    d = {"mode": mode, "timeout": timeout, "nb": nb, "form": form, "exc": exc,
+def P(mode, nb, body, timeout=16, form="ctx", exc="interaction", data=(), flocks=(), holders=(), bkind="cancel", bexc=None):
+    d = {"mode": mode, "timeout": timeout, "nb": nb, "form": form, "exc": exc, "bkind": bkind,
          "data": [list(d) for d in data], "flocks": [list(f) for f in flocks], "body": list(body)}
+    if bexc:
+        d["bexc"] = bexc
     if holders:
         d["holders"] = [{"b": b, "k": k, "end": end} for b, k, end in holders]
     return d
@@ -108,12 +119,29 @@ def fixed_family():
         # two holders, released independently
         P("locked", 1, ["setmany.0.-.0:1+1:2+2:3"], timeout=2, data=DATA0, holders=[(0, 0, "commit"), (0, 2, "rollback")]),
     ]
+    # several backends written in one transaction - where the kind of a failure decides which handler sees it: the commit of
+    # a non-last backend fails (Transaction.commit: `except BaseException` -> the remaining ones are rolled back), the
+    # rollback of a non-last backend fails (Transaction._rollback: `except Exception`); three backends: something is left to
+    # roll back after the rollback of the second one failed
+    out += [
+        P("locked", 2, ["set.0.0.1.-", "set.1.0.2.-"]),
+        P("serializable", 2, ["set.1.0.2.-", "set.0.0.1.-"], form="decor", exc="runtime", bkind="base"),
+        P("locked", 2, ["set.0.0.1.-", "set.0.1.1.-", "set.1.0.2.-", "raise"], bexc="cancel"),
+        P("locked", 3, ["set.0.0.1.-", "set.1.0.2.-", "set.2.0.3.-"], bkind="base"),
+        P("serializable", 3, ["del.2.1", "incr.0.1", "set.1.0.2.8"], data=DATA2, form="decor"),
+        P("locked", 3, ["setmany.1.-.0:1+1:2", "set.0.0.1.-", "delmany.2.0+1", "raise"], exc="runtime", bexc="cancel"),
+        P("fast", 3, ["set.0.0.1.-", "set.1.0.2.8", "del.2.1"], data=DATA2, bkind="base"),
+    ]
+    # the kind of the BaseException-only failures alternates over the family
+    for i, p in enumerate(out):
+        if i % 3 == 1 and p["bkind"] == "cancel":
+            p["bkind"] = "base"
     return out
 
 
 def gen_program(rng):
     mode = rng.choice(["fast", "locked", "locked", "serializable"])
-    nb = rng.choice([1, 2, 2])
+    nb = rng.choice([1, 2, 2, 2, 3])
     flocks = []
     holders = []
     timeout = rng.choice([2, 4, 8, 16, 80])
@@ -169,10 +197,15 @@ def gen_program(rng):
             body.append(f"adv.{rng.choice([2, 4, 8, 16])}")
         else:
             body.append("raise")
+    if len(holders) == 2:
+        # every placement of two independent releases x every pair of faults x the four combinations of kinds: keep the trace short
+        timeout = 2
+        body = body[:3]
     if rng.random() < 0.2:
         body.append("raise")
     return P(mode, nb, body, timeout=timeout, form=rng.choice(["ctx", "decor"]),
-             exc=rng.choice(["interaction", "runtime"]), data=data, flocks=flocks, holders=holders)
+             exc=rng.choice(["interaction", "runtime"]), data=data, flocks=flocks, holders=holders,
+             bkind=rng.choice(["cancel", "cancel", "base"]), bexc=rng.choice([None, None, "cancel"]))
 
 
 # ---------------------------------------------------------------------------------------------------------
@@ -191,7 +224,8 @@ def rel_choices(prog):
 
 def enumerate_cases(prog, depth):
     """for every placement of the release events: the fault-free run, every single position, every pair (second position
-    from the trace the first fault produces), ... up to `depth` simultaneous faults.  Returns [(faults, rels, obs)]."""
+    from the trace the first fault produces), ... up to `depth` simultaneous faults; every failing position in both kinds
+    (Exception, BaseException-only), hence every pair in all four combinations.  Returns [(faults, rels, obs)]."""
     out = []
     for rels in rel_choices(prog):
         first = tf.execute(prog, (), rels)
@@ -202,10 +236,11 @@ def enumerate_cases(prog, depth):
         for _ in range(depth):
             nxt = []
             for faults, _r, obs in frontier:
-                start = faults[-1] + 1 if faults else 0
+                start = tf.fidx(faults[-1]) + 1 if faults else 0
                 for j in range(start, len(obs["trace"])):
-                    f2 = faults + (j,)
-                    nxt.append((f2, rels, tf.execute(prog, f2, rels)))
+                    for f in (j, (j, tf.BASE_KIND)):
+                        f2 = faults + (f,)
+                        nxt.append((f2, rels, tf.execute(prog, f2, rels)))
             out.extend(nxt)
             frontier = nxt
     return out
@@ -251,6 +286,33 @@ def classify(prog, obs):
                 st.add("remaining_backend_rolled_back_after_commit_failure")
         elif name == "unlock":
             st.add("fault_in_unlock")
+    base = set(obs.get("failed_base") or [])
+    nbacks = len({e.split(".")[0] for e in tr})
+    for i in base:
+        ev = tr[i]
+        name = ev.split(".")[1]
+        if obs["body_end"] is not None and i < obs["body_end"]:
+            st.add("baseexception_in_body")
+        elif name in ("delmany", "setmany"):
+            st.add("baseexception_in_commit_write")
+            b = ev.split(".")[0]
+            if any(e.split(".")[1] == "unlock" and e.split(".")[0] != b for e in tr[i + 1:]):
+                st.add("remaining_backend_rolled_back_after_commit_cut_short_by_baseexception")
+        elif name == "unlock":
+            st.add("baseexception_in_unlock")
+    if base and set(failed) - base:
+        st.add("faults_of_both_kinds_hit")
+    if obs["exc"].startswith("bfault:"):
+        st.add("caller_saw_the_baseexception")
+    if base and obs["exc"].startswith("fault:"):
+        st.add("baseexception_replaced_by_a_later_or_earlier_exception")
+    if any(tr[i].split(".")[1] == "unlock" and any(e.split(".")[1] == "unlock" and e.split(".")[0] != tr[i].split(".")[0]
+                                                     for e in tr[i + 1:]) for i in base):
+        st.add("rollback_went_on_to_the_next_backend_after_an_unlock_ended_with_baseexception")     # class of D36
+    if nbacks >= 3 and failed:
+        st.add("fault_with_three_backends_in_the_transaction")
+    if prog.get("bexc") == "cancel" and obs["body_raised"] and obs["exc"] == "body":
+        st.add("body_cancelled_rollback_clean")
     if len(failed) >= 2:
         st.add("two_or_more_faults_hit")
     fu = [tr[i].rsplit(".", 1)[0] for i in failed if tr[i].split(".")[1] == "unlock"]
@@ -352,6 +414,12 @@ def shrink(prog, faults, rels, clause):
             if violates(prog, (f,), rels, clause):
                 best = (prog, (f,), tuple(rels))
                 break
+    # a BaseException-only failure that could as well be an ordinary Exception
+    for n, f in enumerate(best[1]):
+        if tf.fbase(f):
+            f2 = best[1][:n] + (tf.fidx(f),) + best[1][n + 1:]
+            if violates(prog, f2, best[2], clause):
+                best = (prog, f2, best[2])
     # holders that do not matter
     j = 0
     while j < len(best[0].get("holders") or []):
@@ -399,11 +467,15 @@ def shrink(prog, faults, rels, clause):
         p3 = dict(best[0], **{field: []})
         if violates(p3, best[1], best[2], clause):
             best = (p3, best[1], best[2])
-    if best[0]["nb"] == 2 and used_backends(best[0]["body"]) <= {0} and all(d[0] == 0 for d in best[0]["data"]) \
-            and all(f[0] == 0 for f in best[0]["flocks"]) and all(h["b"] == 0 for h in best[0].get("holders") or []):
-        p4 = dict(best[0], nb=1)
-        if violates(p4, best[1], best[2], clause):
-            best = (p4, best[1], best[2])
+    for nb in (1, 2):
+        if best[0]["nb"] > nb and used_backends(best[0]["body"]) <= set(range(nb)) and all(d[0] < nb for d in best[0]["data"]) \
+                and all(f[0] < nb for f in best[0]["flocks"]) and all(h["b"] < nb for h in best[0].get("holders") or []):
+            p4 = dict(best[0], nb=nb)
+            if violates(p4, best[1], best[2], clause):
+                best = (p4, best[1], best[2])
+                break
+    if best[0].get("bexc") and not any(c == "raise" for c in best[0]["body"]):
+        best = ({k: v for k, v in best[0].items() if k != "bexc"}, best[1], best[2])
     return best
 
 
@@ -412,7 +484,10 @@ def make_replay(prog, faults, rels, origin):
     model = ask_model(prog, [(faults, rels, obs)])[0]
     return {
         "program": prog,
-        "faults": list(faults),
+        "faults": [f if isinstance(f, int) else list(f) for f in faults],
+        "fault_kinds": "an int i: backend command i raised the program's Exception class (`exc`); [i, \"B\"]: it raised the "
+                       "program's BaseException-only class (`bkind`: cancel = asyncio.CancelledError, the way a command cut short "
+                       "by asyncio.timeout()/wait_for ends)",
         "rels": list(rels),
         "impl": summary(obs),
         "model": model,
@@ -434,6 +509,14 @@ def contention_text(prog, rels):
     return "; " + "; ".join(parts)
 
 
+def kind_text(prog, faults):
+    if not any(tf.fbase(f) for f in faults):
+        return ""
+    what = ("asyncio.CancelledError, as when the command is cut short by asyncio.timeout()/wait_for" if prog.get("bkind") != "base"
+            else "a BaseException that is not an Exception")
+    return f" (BaseException = {what})"
+
+
 def report_property(chk: Check, prog, faults, rels, clause, origin):
     sp, sf, sr = shrink(prog, faults, rels, clause)
     rep = make_replay(sp, sf, sr, origin)
@@ -443,7 +526,8 @@ def report_property(chk: Check, prog, faults, rels, clause, origin):
                  f"which then issued {rep['impl']['late_commands']}")
     chk.violation(
         f"after a transaction block ({sp['mode']} mode, {sp['nb']} backend(s), body {sp['body']}) in which backend command(s) "
-        f"{list(sf)} of the trace {rep['impl']['trace']} failed{contention_text(sp, sr)}: {clause}; caller saw {rep['impl']['exc']}, "
+        f"{tf.show_faults(sf)} of the trace {rep['impl']['trace']} failed{kind_text(sp, sf)}{contention_text(sp, sr)}: {clause}; "
+        f"caller saw {rep['impl']['exc']}, "
         f"locks left {rep['impl']['locks']}{extra}",
         rep, signature=clause)
 
@@ -452,7 +536,7 @@ def report_correspondence(chk: Check, prog, faults, rels, keys, origin):
     rep = make_replay(prog, faults, rels, origin)
     chk.violation(
         f"correspondence broken: implementation differs from the model TxFault on {keys} for program {prog['body']} "
-        f"({prog['mode']}, {prog['nb']} backend(s)), faults {list(faults)}{contention_text(prog, rels)}, but the property holds on this case",
+        f"({prog['mode']}, {prog['nb']} backend(s)), faults {tf.show_faults(faults)}{kind_text(prog, faults)}{contention_text(prog, rels)}, but the property holds on this case",
         dict(rep, broken="correspondence TxFault model <-> cashews/wrapper/transaction.py + cashews/backends/transaction.py"),
         signature=None, no_input=True)
 
@@ -466,7 +550,7 @@ def corpus_cases():
 def run(chk: Check) -> int:
     proof = proof_stage(PROP, "driver_c16", chk.thorough) if not getattr(chk, "skip_proof", False) else None
     t0 = REAL_PERF()
-    budget_runs = chk.budget(24000, 400000)
+    budget_runs = chk.budget(20000, 400000)
     budget_s = chk.budget(20, 420)
     evaluations = 0
     distinct = set()
@@ -477,6 +561,8 @@ def run(chk: Check) -> int:
     depth_hist = {0: 0, 1: 0, 2: 0, 3: 0}
     samples = []
     hist_rel: dict[str, int] = {}
+    hist_kind: dict[str, int] = {}
+    hist_base_cmd: dict[str, int] = {}
     found_property = 0
     found_corr = 0
     seen_clauses = set()
@@ -506,8 +592,13 @@ def run(chk: Check) -> int:
             for i in obs["failed"]:
                 name = obs["trace"][i].split(".")[1]
                 hist_cmd[name] = hist_cmd.get(name, 0) + 1
+            for i in obs["failed_base"]:
+                name = obs["trace"][i].split(".")[1]
+                hist_base_cmd[name] = hist_base_cmd.get(name, 0) + 1
+            kinds = "".join("B" if tf.fbase(f) else "E" for f in faults) or "-"
+            hist_kind[kinds] = hist_kind.get(kinds, 0) + 1
             if len(samples) < 4 and len(faults) == len(samples) % 3 and st and len(obs["trace"]) <= 12:
-                samples.append({"program": prog, "faults": list(faults), "rels": list(rels), "impl": summary(obs), "states": sorted(st)})
+                samples.append({"program": prog, "faults": [f if isinstance(f, int) else list(f) for f in faults], "rels": list(rels), "impl": summary(obs), "states": sorted(st)})
             bad = tf.oracle(prog, obs)
             d = diff(obs, model)
             for clause in bad:
@@ -570,11 +661,14 @@ def run(chk: Check) -> int:
         "exhaustive": True,
         "rule": "for every program: the fault-free run, EVERY single position of its backend-command trace made to raise, and EVERY pair "
                 "(second position ranging over the trace that the first fault produces); thorough also every triple for the fixed family. "
+                "Every failing position in BOTH KINDS - an Exception (the program's class) and a BaseException that is no Exception "
+                "(asyncio.CancelledError = a command cut short by a time limit, or a BaseException subclass) - so every pair in all four "
+                "combinations of kinds (triples: all eight). "
                 "For a program with contending holders (other tasks' open transactions holding a lock the victim needs) all of this is "
                 "repeated for EVERY placement of each holder's release: just before the victim's command i, for every i of the trace, "
                 "and after the victim's block. "
-                "Programs: a fixed family (3 modes x 1/2 backends x context-manager/decorator x both exception classes, normal / raising "
-                "bodies, single- and multi-key writes (set_many / delete_many over 2-3 keys), TTL groups and time advance, contention "
+                "Programs: a fixed family (3 modes x 1/2/3 backends x context-manager/decorator x both exception classes x both "
+                "BaseException classes, normal / raising / cancelled bodies, single- and multi-key writes (set_many / delete_many over 2-3 keys), TTL groups and time advance, contention "
                 "with a lock held for ever, contention with 1-2 holders that commit or roll back) plus programs generated from VERIF_SEED "
                 "until the budget is used. "
                 "Exhaustive per program, not over programs. A case is non-trivial iff at least one command actually failed or the body "
@@ -586,9 +680,14 @@ def run(chk: Check) -> int:
         "runs_by_number_of_faults": {str(k): v for k, v in depth_hist.items()},
         "runs_with_holders_by_release": hist_rel,
         "failed_command_histogram": hist_cmd,
+        "failed_with_baseexception_command_histogram": hist_base_cmd,
+        "runs_by_fault_kinds": hist_kind,
+        "rollback_loop_model": tf.RB_LOOP,
         "interesting_states_runs": interesting,
         "trusted_base": TRUSTED,
-        "partial": "not exhibited by the model: a command that takes effect and then reports failure; cancellation (BaseException); "
+        "partial": "not exhibited by the model: a command that takes effect and then reports failure; a cancellation delivered by "
+                   "Task.cancel() from another task / the deadline bookkeeping of asyncio.timeout() (the CancelledError is injected as "
+                   "what the failing command raises); "
                    "arbitrary interleavings of several tasks (C05; here other tasks only hold and release locks at command "
                    "granularity); a holder that TAKES a lock while the victim's block runs; nested blocks and explicit "
                    "tx.commit()/rollback() inside the body; commands other than set/incr/get/delete/set_many/delete_many (single "
@@ -608,7 +707,7 @@ def replay(chk: Check, path: str) -> int:
     obs = tf.execute(prog, faults, rels)
     model = ask_model(prog, [(faults, rels, obs)])[0]
     print("program:", json.dumps(prog))
-    print("faults :", list(faults))
+    print("faults :", tf.show_faults(tf.norm_faults(faults)), kind_text(prog, tf.norm_faults(faults)))
     if prog.get("holders"):
         print("holders released:", list(rels), "(command index of the victim's trace, or after its block)")
     for k in KEYS:
